@@ -138,6 +138,11 @@ def run_shard(ctx, shard):
         return
     rng = rng_for(ctx.seed, ID, shard['name'])
     circles = ctx.extra['circles']
+    if shard['kind'] == 'bundled':
+        for name, rows in gen.bundled_whole():
+            ctx.run_case({'kind': 'grid', 'rows': rows})
+            ctx.tag('bundled_documents')
+        return
     for i in range(shard['n']):
         q = rng.random()
         if q < 0.6:
@@ -185,6 +190,7 @@ def execute(run):
         shards += [{'kind': 'rand', 'name': 'rand-%d' % i, 'n': 15000} for i in range(32)]
         run.extra_cov['exhaustive_scopes'] = ['runs of every length 1..400 of 16 line characters at 3 offsets']
     shards.sort(key=lambda s: 0 if s['kind'] == 'runs' else 1)
+    shards.insert(0, {'kind': 'bundled', 'name': 'bundled'})
     run.run_shards(binary, shards, extra=extra)
 
 
